@@ -302,10 +302,21 @@ func immediates(comp *encPkg, guardedFuncs map[string]bool) ([]encImm, error) {
 							for k, s := range list {
 								if ast.Node(s) == child {
 									// earlier siblings: limit check on the same quantity, `k := x <= 127`
-									for _, prev := range list[:k] {
+									for pi, prev := range list[:k] {
 										if is, ok := prev.(*ast.IfStmt); ok && len(is.Body.List) > 0 {
 											if _, ok := limitPanic(is.Body.List[0]); ok && (strings.Contains(comp.src(is.Cond), xs) || rangedLen(comp, stack, xs, comp.src(is.Cond))) {
 												set("limitCheck", comp.src(is.Cond))
+											}
+											// `len(X) - 1` after `if len(X) == C { panic(limit) }; X = append(X, one value)`:
+											// the index of the entry just appended (one append, nothing else in between)
+											if _, ok := limitPanic(is.Body.List[0]); ok && pi+2 == k {
+												if X, ok := lenMinusOne(comp, arg); ok && strings.HasPrefix(comp.src(is.Cond), "len("+X+") == ") {
+													if as, ok := list[pi+1].(*ast.AssignStmt); ok && len(as.Lhs) == 1 && len(as.Rhs) == 1 && comp.src(as.Lhs[0]) == X {
+														if c, ok := isCall(as.Rhs[0], "append"); ok && len(c.Args) == 2 && !c.Ellipsis.IsValid() && comp.src(c.Args[0]) == X {
+															set("limitCheck", comp.src(is.Cond)+" before the one append of which this is the index")
+														}
+													}
+												}
 											}
 										}
 										if as, ok := prev.(*ast.AssignStmt); ok && len(as.Rhs) == 1 && comp.src(as.Rhs[0]) == xs+" <= 127" {
@@ -365,6 +376,19 @@ func immediates(comp *encPkg, guardedFuncs map[string]bool) ([]encImm, error) {
 		uniq = append(uniq, m)
 	}
 	return uniq, nil
+}
+
+// lenMinusOne: e is `len(X) - 1`; returns the text of X.
+func lenMinusOne(p *encPkg, e ast.Expr) (string, bool) {
+	be, ok := e.(*ast.BinaryExpr)
+	if !ok || be.Op != token.SUB || p.src(be.Y) != "1" {
+		return "", false
+	}
+	l, ok := isCall(be.X, "len")
+	if !ok || len(l.Args) != 1 {
+		return "", false
+	}
+	return p.src(l.Args[0]), true
 }
 
 // rangedLen: xs is the key of an enclosing `for xs := range X` and cond bounds len(X).
